@@ -13,12 +13,12 @@ import itertools
 from typing import Any
 
 from ..engine.absint import Obj
-from ..engine.cfg import CFG, own_parts
+from ..engine.cfg import CFG
 from ..engine.nandomain import F, NanInterp, nan
 from ..engine.report import AnalysisError, Run
 from ..engine.resolver import ClassInfo, FuncInfo, Program, body_walk
 from ..engine.util import canon, method_call, nodes_with_call, u
-from ._c06_util import Flow, HelperCalls, Site, first_run_sync_name, rereport, validity_name, lifted, names_eq, pruned, result_sites, seg, select_ifexp, src_patch, stmt_patch, tri, truth_atom, unawait
+from ._c06_util import Flow, HelperCalls, parts_of, Site, first_run_sync_name, rereport, validity_name, lifted, names_eq, pruned, result_sites, seg, select_ifexp, src_patch, stmt_patch, tri, truth_atom, unawait
 
 STEPS = "timeseries.formula_engine._formula_steps"
 EVAL = "timeseries.formula_engine._formula_evaluator"
@@ -583,10 +583,16 @@ def check_read(run: Run, prog: Program) -> None:
     (a present value pushed for a timestamp whose sample is missing, or the reverse)."""
     ev = prog.cls(f"{EVAL}:FormulaEvaluator")
     uses = 0
-    for m in ev.methods.values():
+    units: list[FuncInfo] = []
+    for m0 in ev.methods.values():
+        # a method, and the closures defined in it (each a function of its own: its body is not part of the method's CFG)
+        units.append(m0)
+        units.extend(FuncInfo(x.name, m0.module, x, None, m0) for x in ast.walk(m0.node)
+                     if isinstance(x, (ast.FunctionDef, ast.AsyncFunctionDef)) and x is not m0.node)
+    for m in units:
         fl = Flow(prog, m)
 
-        def is_fetcher(e: ast.AST, nid: int) -> bool:
+        def is_fetcher(e: ast.AST, nid: int, fl: Flow = fl) -> bool:
             out = fl.origin(e, nid, through_helpers=False)
             for o in out:
                 if o.kind == "expr" and isinstance(o.node, ast.Subscript) and all(
@@ -602,7 +608,7 @@ def check_read(run: Run, prog: Program) -> None:
         for n in fl.cfg.nodes:
             if n.ast is None or n.id not in fl.live:
                 continue
-            for part in own_parts(n):
+            for part in parts_of(n):
                 for x in ast.walk(part):
                     if isinstance(x, ast.Attribute) and isinstance(x.ctx, ast.Load) and not (
                             isinstance(x.value, ast.Attribute) and u(x.value) == "self._metric_fetchers") \
